@@ -19,6 +19,8 @@ import (
 
 func init() {
 	Register(&Scenario{Prop: "C13", Name: "purge-faulty", Strict: false, Quick: 10, Thorough: 10, Run: func(rc *RunCtx) *simkit.Violation { return runPurge(rc, "C13", "faulty") }})
+	// an index chunk of more than a thousand keys whose write fails once (before landing, or after it with the acknowledgement lost)
+	Register(&Scenario{Prop: "C13", Name: "purge-large-chunk-write-error", Strict: false, Quick: 1, Thorough: 2, Run: func(rc *RunCtx) *simkit.Violation { return runPurge(rc, "C13", "faulty-large") }})
 	Register(&Scenario{Prop: "C13", Name: "purge-crash-resume", Strict: false, Quick: 5, Thorough: 6, Run: func(rc *RunCtx) *simkit.Violation { return runPurge(rc, "C13", "crash-resume") }})
 	Register(&Scenario{Prop: "C13", Name: "purge-late-uploads", Strict: false, Quick: 5, Thorough: 6, Run: func(rc *RunCtx) *simkit.Violation { return runPurge(rc, "C13", "fault-free") }})
 	Register(&Scenario{Prop: "C13", Name: "known-dedup-onto-orphan", Strict: false, Quick: 1, Thorough: 1, Run: func(rc *RunCtx) *simkit.Violation { return runPurge(rc, "C13", "dedup-onto-orphan") }})
@@ -190,6 +192,25 @@ func runPurge(rc *RunCtx, prop, variant string) *simkit.Violation {
 			}
 		}
 	}
+	if variant == "faulty-large" {
+		// one bundle of several hundred distinct small files: more than a thousand keys (roots and leaves) for one index chunk
+		pc := p.ctxs[0]
+		rns := sortedKeys(pc.repos)
+		r := pc.repos[rns[0]]
+		tr := Tree{}
+		for i, n := 0, t.Pick(530, 700, 1100); i < n; i++ {
+			tr[fmt.Sprintf("many/f%04d", i)] = []byte(fmt.Sprintf("distinct small content %d", i))
+		}
+		tk, v := doOp(prop, w, setup, "upload-many", p.uploadTo(setup, pc, r.Name, tr))
+		if v != nil {
+			return v
+		}
+		if tk.Err != nil {
+			return Viol(prop, "harness", "upload", r.Name, "%v", tk.Err)
+		}
+		r.Bundles = append(r.Bundles, &mBundle{ID: tk.Result.(*core.Bundle).BundleID, Tree: tr, Leaf: p.leaf})
+		w.Probe("index-of-1000+-keys")
+	}
 	referenced := func() map[string]bool {
 		m := map[string]bool{}
 		for _, pc := range p.ctxs {
@@ -239,6 +260,16 @@ func runPurge(rc *RunCtx, prop, variant string) *simkit.Violation {
 	indexStart := time.Now()
 	c14Resume := false
 	switch variant {
+	case "faulty-large":
+		chunk = uint64(t.Pick(1500, 500000))
+		nth, n := t.Range(0, 1), 0
+		w.Faults = &simkit.FaultCfg{Plan: []*simkit.Planned{{Client: "purger", Kind: simkit.Kind(int(simkit.FErr) + t.Choose(2)), Match: func(c *simkit.Call) bool {
+			if !c.Op.IsWrite() || !strings.HasPrefix(c.Key, "reverse-index") {
+				return false
+			}
+			n++
+			return n-1 == nth
+		}}}}
 	case "faulty":
 		// transient failures of index-chunk writes, list pages and reads
 		w.Faults = &simkit.FaultCfg{Err: 60, AckLost: 25, Stall: 15, Budget: t.Range(1, 3), Eligible: func(c *simkit.Call) bool {
@@ -358,6 +389,12 @@ func runPurge(rc *RunCtx, prop, variant string) *simkit.Violation {
 		nLate++
 	}
 	if v := w.Run(); v != nil {
+		if variant == "faulty-large" && v.Class == "deadlock" && fired(w) {
+			// an index build that never returns after a failed chunk write (its key producer blocks on a full channel nobody
+			// reads any more) has lost nothing: outside the statement of C13, an observation of DESIGN.md; the run stops here
+			w.Probe("hang-after-store-error")
+			return nil
+		}
 		v.Property = prop
 		return v
 	}
